@@ -14,10 +14,43 @@ Theorem C05_countsA_is_MCA : forall C n A,
 Proof. exact countsA_MCA. Qed.
 Print Assumptions C05_countsA_is_MCA.
 
-(* ---------- (A) the cached core (calculate_core, returned for empty assumptions) ---------- *)
+(* ---------- (A) the cached core (calculate_core, returned for empty assumptions) ----------
+   calculate_core is the repaired algorithm (F22, repo_patches/F22-core-ignores-dead-branches.patch):
+   a literal is reported iff it is LIVE and its complement is not, where a literal is live when its
+   node is reachable from the root through nodes with a non-zero count (one downward sweep over
+   the node vector, Model/Query.v live_literals).  Representation: the sub-list of
+   -n, ..., -1, 0, 1, ..., n (ascending, hence duplicate-free) of the reported literals; the Rust
+   value is the HashSet of these numbers. *)
 
-(* Soundness: every literal the syntactic core reports is in every model.  Needs neither
-   no_dead nor reachability nor unique leaves (proved from WF alone: C05_core_sound_WF). *)
+(* Exactness, UNCONDITIONALLY in the shape of the circuit: for every well-formed circuit that has a
+   model - dead (zero-count) branches or not, reachable or not, unique leaves or not - the cached
+   core contains a signed literal exactly when every model contains it. *)
+Theorem C05_core_exact : forall C n l,
+  WFQ C n -> 0 < root_count C ->
+  (In l (calculate_core C n) <-> (forall m, In m (Models C n) -> In l m)).
+Proof. exact core_exact. Qed.
+Print Assumptions C05_core_exact.
+
+Theorem C05_core_exact_WF : forall C n l,
+  WF C n -> 0 < root_count C ->
+  (In l (calculate_core C n) <-> (forall m, In m (Models C n) -> In l m)).
+Proof. exact core_exact_WF. Qed.
+Print Assumptions C05_core_exact_WF.
+
+(* ... as a list: exactly the literals of -n..n, ascending, that every model contains
+   (in_all_models C n l = forallb (fun m => memZ l m) (Models C n), the truth-table test) *)
+Theorem C05_core_exact_list : forall C n,
+  WF C n -> 0 < root_count C ->
+  calculate_core C n = filter (in_all_models C n) (zseq (- Z.of_nat n) (2 * n + 1)).
+Proof. exact core_exact_list. Qed.
+Print Assumptions C05_core_exact_list.
+
+Theorem C05_in_all_models_spec : forall C n l,
+  in_all_models C n l = true <-> (forall m, In m (Models C n) -> In l m).
+Proof. exact in_all_models_spec. Qed.
+Print Assumptions C05_in_all_models_spec.
+
+(* Soundness holds for every WF circuit, also without a model (then there is nothing to show). *)
 Theorem C05_core_sound : forall C n l,
   WFQ C n -> In l (calculate_core C n) -> forall m, In m (Models C n) -> In l m.
 Proof. exact core_sound. Qed.
@@ -28,32 +61,55 @@ Theorem C05_core_sound_WF : forall C n l,
 Proof. exact core_sound_WF. Qed.
 Print Assumptions C05_core_sound_WF.
 
-(* Completeness: uses WF + all_reachable + no_dead (no_dead also gives a model, so the
-   right-hand side is not vacuous). *)
+(* Completeness: WF and a model; no hypothesis on dead nodes. *)
 Theorem C05_core_complete : forall C n l,
-  WF C n -> all_reachable C = true -> no_dead C = true ->
+  WF C n -> 0 < root_count C ->
   (forall m, In m (Models C n) -> In l m) -> In l (calculate_core C n).
 Proof. exact core_complete_WF. Qed.
 Print Assumptions C05_core_complete.
 
-(* Exactness when no node is dead. *)
-Theorem C05_core_syntactic : forall C n l,
-  WFQ C n -> no_dead C = true ->
-  (In l (calculate_core C n) <-> (forall m, In m (Models C n) -> In l m)).
-Proof. exact core_syntactic. Qed.
-Print Assumptions C05_core_syntactic.
-
 (* ... which is what core_dead_with_assumptions answers for the empty assumption list. *)
 Theorem C05_core_dead_nil_correct : forall C n s l,
-  WFQ C n -> no_dead C = true ->
+  WFQ C n -> 0 < root_count C ->
   (In l (snd (core_dead_with_assumptions (build C n) [] s)) <->
    (forall m, In m (Models C n) -> In l m)).
 Proof. exact core_dead_nil_correct. Qed.
 Print Assumptions C05_core_dead_nil_correct.
 
-(* ---------- (B) without no_dead the syntactic core is incomplete (finding K7) ---------- *)
+(* The degenerate case the repair leaves alone: a circuit without a model (root count 0; only c2d
+   input can be loaded that way).  Every literal is vacuously "in every model"; the code answers
+   what it answered before the repair: the syntactic core over all literal nodes. *)
+Theorem C05_core_unsat_is_v0 : forall C n,
+  root_count C = 0 -> calculate_core C n = calculate_core_v0 C n.
+Proof. exact core_unsat_is_v0. Qed.
+Print Assumptions C05_core_unsat_is_v0.
+
+(* ---------- (A0) the code before the repair: calculate_core_v0 (purely syntactic) ---------- *)
+
+(* sound for every WF circuit *)
+Theorem C05_core_v0_sound_WF : forall C n l,
+  WF C n -> In l (calculate_core_v0 C n) -> forall m, In m (Models C n) -> In l m.
+Proof. exact core_sound_WF_v0. Qed.
+Print Assumptions C05_core_v0_sound_WF.
+
+(* exact when no node is dead *)
+Theorem C05_core_v0_syntactic : forall C n l,
+  WFQ C n -> no_dead C = true ->
+  (In l (calculate_core_v0 C n) <-> (forall m, In m (Models C n) -> In l m)).
+Proof. exact core_syntactic_v0. Qed.
+Print Assumptions C05_core_v0_syntactic.
+
+(* ... and then the repair changes nothing *)
+Theorem C05_core_no_dead_is_v0 : forall C n l,
+  WF C n -> all_reachable C = true -> no_dead C = true ->
+  (In l (calculate_core C n) <-> In l (calculate_core_v0 C n)).
+Proof. exact core_no_dead_is_v0. Qed.
+Print Assumptions C05_core_no_dead_is_v0.
+
+(* ---------- (B) finding K7 (repaired by F22): without no_dead the syntactic core of the old code
+   is incomplete - a statement about calculate_core_v0 only ---------- *)
 Theorem C05_core_refuted_without_no_dead :
-  exists C n l, WFQ C n /\ (forall m, In m (Models C n) -> In l m) /\ ~ In l (calculate_core C n).
+  exists C n l, WFQ C n /\ (forall m, In m (Models C n) -> In l m) /\ ~ In l (calculate_core_v0 C n).
 Proof. exact core_refuted_without_no_dead. Qed.
 Print Assumptions C05_core_refuted_without_no_dead.
 
@@ -139,13 +195,15 @@ Print Assumptions C05_core_dead_with_assumptions_correct.
 
 (* ---------- non-vacuity ---------- *)
 
-(* x1 & (x2 <-> x3): WFQ, no dead node, two models; core = [1] syntactically and semantically *)
+(* x1 & (x2 <-> x3): WFQ, a model, no dead node, two models; core = [1] for the old and the
+   repaired code and semantically *)
 Definition ex_c05 : circuit :=
   [Lit 1; Lit 2; Lit (-2); Lit 3; Lit (-3); And [1;3]%nat; And [2;4]%nat; Or [5;6]%nat;
    And [0;7]%nat].
 
-Example ex_c05_hyps : WFQ ex_c05 3 /\ no_dead ex_c05 = true /\
-  Models ex_c05 3 = [[1; 2; 3]; [1; -2; -3]] /\ calculate_core ex_c05 3 = [1].
+Example ex_c05_hyps : WFQ ex_c05 3 /\ 0 < root_count ex_c05 /\ no_dead ex_c05 = true /\
+  Models ex_c05 3 = [[1; 2; 3]; [1; -2; -3]] /\ calculate_core ex_c05 3 = [1] /\
+  calculate_core_v0 ex_c05 3 = [1].
 Proof. split; [apply check_wf_WFQ; vm_compute; reflexivity|]. vm_compute. repeat split. Qed.
 
 (* the hypotheses of the with-assumptions theorems: in-range non-empty A, a Clean state; the
@@ -172,12 +230,24 @@ Example ex_c05_exec_instances :
           [[2]; [2; 1]; [-1]; [2; -3]; [2; -3; 1]; [3; 3]; [1; -1]] = true.
 Proof. vm_compute. reflexivity. Qed.
 
-(* the K7 witness of (B): WFQ holds, no_dead fails, the only model is [-1; 2], core reports [2];
-   the with-assumptions loop (which does not use the syntactic core for candidates) is exact *)
+(* the K7 witness of (B): WFQ holds, the root count is 1, no_dead fails, the only model is
+   [-1; 2]; the old code reports [2], the repaired code [-1; 2] (the hypotheses of C05_core_exact
+   hold on a circuit WITH a dead branch); the with-assumptions loop (which does not use the cached
+   core for candidates) was exact before *)
 Example ex_k7 :
-  check_wf k7_circuit 2 = true /\ no_dead k7_circuit = false /\
-  Models k7_circuit 2 = [[-1; 2]] /\ calculate_core k7_circuit 2 = [2] /\
+  check_wf k7_circuit 2 = true /\ root_count k7_circuit = 1 /\ no_dead k7_circuit = false /\
+  Models k7_circuit 2 = [[-1; 2]] /\ calculate_core_v0 k7_circuit 2 = [2] /\
+  calculate_core k7_circuit 2 = [-1; 2] /\
+  snd (core_dead_with_assumptions (build k7_circuit 2) [] (fresh_scratch k7_circuit)) = [-1; 2] /\
   snd (core_dead_with_assumptions (build k7_circuit 2) [2] (fresh_scratch k7_circuit)) = [-1; 2].
+Proof. vm_compute. repeat split. Qed.
+
+(* a circuit without a model (c2d 'nnf 3 2 1 / L 1 / O 0 0 / A 2 0 1'): the repaired code answers
+   like the old one *)
+Example ex_unsat_root :
+  root_count [Lit 1; FalseN; And [0; 1]%nat] = 0 /\ Models [Lit 1; FalseN; And [0; 1]%nat] 1 = [] /\
+  calculate_core [Lit 1; FalseN; And [0; 1]%nat] 1 = [1] /\
+  calculate_core_v0 [Lit 1; FalseN; And [0; 1]%nat] 1 = [1].
 Proof. vm_compute. repeat split. Qed.
 
 (* With the C02 theorem in place of the hypothesis: for every WF circuit, every non-empty
